@@ -6,9 +6,17 @@
    For every function body, every oracle and every fuel: a statement whose marker executes is
    marked reachable, hence is not among the statements the model reports dead.  The harness ties
    (a) Flow.v to pyscn (reported dead ranges = lines of the model's dead statements) and
-   (b) PySem.v to CPython (same traces under the same oracles) on generated programs each run. *)
+   (b) PySem.v to CPython (same traces under the same oracles) on generated programs each run.
+
+   Link between the abstraction Cfg/Flow.v and the graph-level model Cfg/Builder.v (blocks, typed edges, loop and
+   exception stacks, DFS, findings):
+   - PROVED FOR ALL BODIES (no size bound): same dead statements (C01_flow_agrees_with_builder,
+     C01_flow_dead_iff_unreachable) and every reported line range contains only dead statements
+     (C01_ranges_cover_only_dead, bodies whose ids are source-order line numbers);
+   - still bounded (exhaustive enumeration, <= 4 statement nodes): the complexity component of [check_one]
+     (C01_flow_agrees_with_builder_bounded); the two bounded theorems are kept as regression checks. *)
 From Coq Require Import NArith List.
-From PV Require Import Py.PyAST Py.PySem Cfg.Flow Cfg.FlowSound Cfg.Builder Cfg.BuilderBounded.
+From PV Require Import Py.PyAST Py.PySem Cfg.Flow Cfg.FlowSound Cfg.Builder Cfg.BuilderBounded Cfg.BuilderAgree Cfg.BuilderRanges.
 
 Theorem C01_executed_is_marked_reachable :
   forall body fuel o out t, run fuel o body = (out, t) -> forall k, In k t -> In (k, true) (fn_marks body).
@@ -38,7 +46,34 @@ Proof. exact flow_agrees_with_builder_bounded. Qed.
 Theorem C01_ranges_cover_only_dead_bounded : forallb check_ranges all_bodies = true.
 Proof. exact ranges_cover_only_dead_bounded. Qed.
 
+(* UNBOUNDED: the abstraction agrees with the graph-level model on EVERY function body, all constructs (if/elif/else,
+   while/for/else, try/except/else/finally, with, match, comprehensions, nested def/class), plain and wrapped in a loop
+   with an else clause: a statement is marked dead by Cfg/Flow.v iff Cfg/Builder.v puts it into a block the depth-first
+   walk from ENTRY does not reach.  [check_dead] is [check_one] without its complexity component (the complexity part of
+   [check_one] stays bounded, C01_flow_agrees_with_builder_bounded).  Proof: Cfg/BuilderReach.v (DFS = path reachability),
+   Cfg/BuilderFrame*.v (the hasSuccessor(EXIT) guards of the builder never fire), Cfg/BuilderSim.v (simulation by
+   mutual induction over the syntax), Cfg/BuilderAgree.v. *)
+Theorem C01_flow_agrees_with_builder : forall b, check_dead b = true.
+Proof. exact flow_agrees_with_builder. Qed.
+
+(* the same statement at the level of propositions, for every body whose break/continue statements are inside loops *)
+Theorem C01_flow_dead_iff_unreachable : forall body, lok_block false body = true ->
+  (forall k, In k (dead_stmt_lines (build body)) -> k = 0%N \/ In k (dead_ids body)) /\
+  (forall k, In k (dead_ids body) -> In k (dead_stmt_lines (build body)) \/ In k (elif_block body)).
+Proof. exact flow_dead_iff_unreachable. Qed.
+
+(* UNBOUNDED: every reported line range (first statement start .. last statement end of an unreachable block of the
+   graph-level model) contains only statements the abstraction marks dead, for EVERY body whose ids are the source-order
+   line numbers ([renumber]; every member of the bounded domain [all_bodies] has this form).  Proof: Cfg/BuilderChain.v
+   (inside one block consecutive statements leave no gap), Cfg/FlowRanges.v (a dead header makes everything up to its
+   last line dead), Cfg/BuilderRanges.v. *)
+Theorem C01_ranges_cover_only_dead : forall b0, check_ranges (renumber b0) = true.
+Proof. exact ranges_cover_only_dead. Qed.
+
 Print Assumptions C01_executed_is_marked_reachable.
+Print Assumptions C01_ranges_cover_only_dead.
+Print Assumptions C01_flow_agrees_with_builder.
+Print Assumptions C01_flow_dead_iff_unreachable.
 Print Assumptions C01_flow_agrees_with_builder_bounded.
 Print Assumptions C01_ranges_cover_only_dead_bounded.
 Print Assumptions C01_sound.
